@@ -31,6 +31,34 @@ class HarnessError(Exception):
     """The harness (not baize) misbehaved: makes a run inconclusive, never a violation."""
 
 
+class CaseTimeout(Exception):
+    """a single small case did not finish within a very generous wall-clock limit (main thread of a shard only)"""
+
+
+class time_limit:
+    def __init__(self, seconds):
+        self.seconds = seconds
+
+    def _fire(self, signum, frame):
+        raise CaseTimeout(f"no result within {self.seconds} s")
+
+    def __enter__(self):
+        import signal
+        import threading
+        self.active = threading.current_thread() is threading.main_thread()
+        if self.active:
+            self.old = signal.signal(signal.SIGALRM, self._fire)
+            signal.setitimer(signal.ITIMER_REAL, self.seconds)
+        return self
+
+    def __exit__(self, *a):
+        import signal
+        if self.active:
+            signal.setitimer(signal.ITIMER_REAL, 0)
+            signal.signal(signal.SIGALRM, self.old)
+        return False
+
+
 def jsonable(x, depth=0):
     if depth > 8:
         return repr(x)[:200]
